@@ -1,7 +1,7 @@
 """Configuration of ./check for C10 (see tools/props.py)."""
 ENTRY = {'coq_dir': 'C10',
  'harness': 'c10',
- 'cases': {'quick': 320, 'thorough': 2500},
+ 'cases': {'quick': 330, 'thorough': 2500},
  'consts': ['MAX_ADDRESSES',
             'SCORE_CONNECTION_ESTABLISHED',
             'SCORE_CONNECTION_FAILURE_NEG',
@@ -101,4 +101,11 @@ ENTRY = {'coq_dir': 'C10',
                  'is not re-checked by the code when a listen address is registered later)',
                  'HashMap/HashSet iteration order only influences the insertion order of one add_known_address call, the choice among minimal '
                  'records and the order of equal scores (validated, not assumed)',
-                 'usize: lengths are unbounded naturals; i32 scores are modelled as Z with saturation written out and proved to stay in range']}
+                 'usize: lengths are unbounded naturals; i32 scores are modelled as Z with saturation written out and proved to stay in range'],
+ 'aux_stream': {'tiers': ['quick', 'thorough'],
+                'features': 'quic,rsa',
+                'target_dir': 'target-quic',
+                'args': '',
+                'cases': {'quick': 110, 'thorough': 1200},
+                'corpus': 'corpus/C10-aux'},
+ 'coq_deps': ['C14']}
